@@ -8,9 +8,138 @@ import (
 
 type types_Package = types.Package
 
+// time.Time is modelled abstractly (A8): leaf "wall" is 1 for every instant produced by Now/Unix
+// (0 only in the zero value), leaf "ext" holds Unix nanoseconds, "loc" is ignored.
+
+func timeSV(ty types.Type, nanos *Term) SV {
+	ls := leavesOf(ty)
+	out := make([]*Term, len(ls))
+	for i, l := range ls {
+		switch l.path {
+		case ".wall":
+			out[i] = mkBV(1, 64)
+		case ".ext":
+			out[i] = nanos
+		default:
+			out[i] = zeroTerm(l.sort)
+		}
+	}
+	return SV{ty: ty, l: out}
+}
+
+func timeNanos(v SV) *Term {
+	for i, l := range leavesOf(v.ty) {
+		if l.path == ".ext" {
+			return v.l[i]
+		}
+	}
+	panic("not a time.Time")
+}
+
+func timeWall(v SV) *Term {
+	for i, l := range leavesOf(v.ty) {
+		if l.path == ".wall" {
+			return v.l[i]
+		}
+	}
+	panic("not a time.Time")
+}
+
+func (x *Exec) lastNowPtr() SV {
+	ty := types.Typ[types.Int64]
+	return SV{ty: types.NewPointer(ty), l: []*Term{mkBV(1, 32)}, p: &PtrInfo{rootKey: "GH:time.lastNow", rootTy: ty}}
+}
+
 // modelCall gives built-in models for selected library functions.
 func (x *Exec) modelCall(st *State, fr *Frame, ci *ssa.Call, name string, args []SV) (SV, bool) {
+	boolT := types.Typ[types.Bool]
 	switch name {
+	case "time.Now":
+		x.modelled["time.Now: fresh instant, recorded in ghost time.lastNow; monotone non-decreasing"] = true
+		n := mkVar(freshName("now"), I64)
+		old := st.load(x, x.lastNowPtr())
+		st.assume(BvCmp("bvsle", old.t(), n))
+		st.assume(BvCmp("bvsle", mkBV(0, 64), n))
+		st.assume(BvCmp("bvsle", n, mkBV(1<<62, 64)))
+		st.store(x, x.lastNowPtr(), scalarSV(types.Typ[types.Int64], n))
+		return timeSV(ci.Type(), n), true
+	case "(time.Time).Add":
+		x.modelled["time.Time.Add: exact nanosecond addition (A8)"] = true
+		return timeSV(ci.Type(), BvBin("bvadd", timeNanos(args[0]), args[1].t())), true
+	case "(time.Time).Sub":
+		x.modelled["time.Time.Sub: exact nanosecond difference (A8)"] = true
+		return scalarSV(ci.Type(), BvBin("bvsub", timeNanos(args[0]), timeNanos(args[1]))), true
+	case "(time.Time).Before":
+		return scalarSV(boolT, BvCmp("bvslt", timeNanos(args[0]), timeNanos(args[1]))), true
+	case "(time.Time).After":
+		return scalarSV(boolT, BvCmp("bvslt", timeNanos(args[1]), timeNanos(args[0]))), true
+	case "(time.Time).Equal":
+		return scalarSV(boolT, Eq(timeNanos(args[0]), timeNanos(args[1]))), true
+	case "(time.Time).Compare":
+		a, b := timeNanos(args[0]), timeNanos(args[1])
+		return scalarSV(ci.Type(), Ite(BvCmp("bvslt", a, b), mkBV(-1, 64), Ite(Eq(a, b), mkBV(0, 64), mkBV(1, 64)))), true
+	case "(time.Time).IsZero":
+		return scalarSV(boolT, And(Eq(timeWall(args[0]), mkBV(0, 64)), Eq(timeNanos(args[0]), mkBV(0, 64)))), true
+	case "(time.Time).Unix":
+		return scalarSV(ci.Type(), BvBin("bvsdiv", timeNanos(args[0]), mkBV(1000000000, 64))), true
+	case "(time.Time).UnixNano":
+		return scalarSV(ci.Type(), timeNanos(args[0])), true
+	case "(time.Time).UTC", "(time.Time).Local", "(time.Time).Round", "(time.Time).In":
+		if name == "(time.Time).Round" {
+			return SV{}, false
+		}
+		return args[0], true
+	case "(time.Time).Truncate":
+		d := args[1].t()
+		n := timeNanos(args[0])
+		r := Ite(BvCmp("bvsle", d, mkBV(0, 64)), n, BvBin("bvsub", n, BvBin("bvsrem", n, d)))
+		return timeSV(ci.Type(), r), true
+	case "time.Unix":
+		x.modelled["time.Unix: sec*1e9+nsec nanoseconds (A8)"] = true
+		return timeSV(ci.Type(), BvBin("bvadd", BvBin("bvmul", args[0].t(), mkBV(1000000000, 64)), args[1].t())), true
+	case "github.com/scionproto/scion/pkg/private/util.SecsToTime":
+		return timeSV(ci.Type(), BvBin("bvmul", ZExt(args[0].t(), 64), mkBV(1000000000, 64))), true
+	case "github.com/scionproto/scion/pkg/private/util.TimeToSecs":
+		return scalarSV(ci.Type(), Extract(31, 0, BvBin("bvsdiv", timeNanos(args[0]), mkBV(1000000000, 64)))), true
+	case "time.Since":
+		n := mkVar(freshName("now"), I64)
+		return scalarSV(ci.Type(), BvBin("bvsub", n, timeNanos(args[0]))), true
+	case "time.Until":
+		n := mkVar(freshName("now"), I64)
+		return scalarSV(ci.Type(), BvBin("bvsub", timeNanos(args[0]), n)), true
+	case "(time.Duration).Seconds", "(time.Duration).String":
+		return SV{}, false
+	case "crypto/subtle.ConstantTimeCompare":
+		x.modelled["crypto/subtle.ConstantTimeCompare: 1 iff equal lengths and equal bytes"] = true
+		return x.bytesEqual(st, fr, ci, args[0], args[1], true), true
+	case "bytes.Equal":
+		x.modelled["bytes.Equal: true iff equal lengths and equal bytes"] = true
+		return x.bytesEqual(st, fr, ci, args[0], args[1], false), true
 	}
 	return SV{}, false
+}
+
+func (x *Exec) bytesEqual(st *State, fr *Frame, ci *ssa.Call, a, b SV, asInt bool) SV {
+	var eq *Term
+	la, lb := a.l[2], b.l[2]
+	if la.isConst() && lb.isConst() && la.c.Int64() <= 64 {
+		if la.c.Cmp(lb.c) != 0 {
+			eq = False
+		} else {
+			var cs []*Term
+			for i := int64(0); i < la.c.Int64(); i++ {
+				cs = append(cs, Eq(x.sliceElem(st, a, mkBV(i, 64)).t(), x.sliceElem(st, b, mkBV(i, 64)).t()))
+			}
+			eq = And(cs...)
+		}
+	} else {
+		j := mkBound(freshName("j"), I64)
+		all := Forall([]*Term{j}, Implies(BvCmp("bvult", j, la),
+			Eq(x.sliceElem(st, a, j).t(), x.sliceElem(st, b, j).t())))
+		eq = And(Eq(la, lb), all)
+	}
+	if asInt {
+		return scalarSV(ci.Type(), Ite(eq, mkBV(1, 64), mkBV(0, 64)))
+	}
+	return scalarSV(ci.Type(), eq)
 }
